@@ -1961,7 +1961,11 @@ func (ft *ftrans) pureExpr(x ast.Expr) bool {
 	ok := true
 	ast.Inspect(x, func(n ast.Node) bool {
 		switch c := n.(type) {
-		case nil, *ast.Ident, *ast.BasicLit, *ast.ParenExpr, *ast.BinaryExpr, *ast.SelectorExpr:
+		case nil, *ast.Ident, *ast.BasicLit, *ast.ParenExpr, *ast.SelectorExpr:
+		case *ast.BinaryExpr:
+			if c.Op == token.QUO || c.Op == token.REM || c.Op == token.SHL || c.Op == token.SHR {
+				ok = false // can panic (division by zero, negative shift count)
+			}
 		case *ast.UnaryExpr:
 			if c.Op == token.ARROW {
 				ok = false
